@@ -173,6 +173,14 @@ class ExecCall(ExecExpr):
             r = api.SPECFUNS[name](self, st, *args, **kwargs)
             yield st, r
             return
+        if self.spec_mode and name == "exp":
+            x = self.coerce(args[0], "real")
+            f = w.uf("exp", z3.RealSort(), z3.RealSort())
+            st.assume(f(x.t) > 0)
+            st.assume(z3.Implies(x.t <= 0, f(x.t) <= 1))
+            st.assume(z3.Implies(x.t == 0, f(x.t) == 1))
+            yield st, V("real", f(x.t))
+            return
         if self.spec_mode and name in ("stim_name", "stim_targets", "stim_args", "stim_rargs"):
             (x,) = args
             if name == "stim_name":
@@ -295,6 +303,15 @@ class ExecCall(ExecExpr):
                 yield st, x
             else:
                 yield st, x
+        elif name in ("np.exp", "numpy.exp", "math.exp"):
+            # exp is an uninterpreted function with the facts used by the T1/T2 formula, instantiated at the argument
+            self.trusted_used.add("exp: uninterpreted; only exp(x) > 0, exp(x) <= 1 for x <= 0, exp(0) = 1 are used")
+            x = self.coerce(args[0], "real")
+            f = w.uf("exp", z3.RealSort(), z3.RealSort())
+            st.assume(f(x.t) > 0)
+            st.assume(z3.Implies(x.t <= 0, f(x.t) <= 1))
+            st.assume(z3.Implies(x.t == 0, f(x.t) == 1))
+            yield st, V("real", f(x.t))
         elif name == "stim.target_rec":
             # assumed external contract (probed): a record target is identified by its (negative) look-back
             self.trusted_used.add("stim.target_rec(k): measurement record look-back k (assumed; Stim rejects k >= 0)")
